@@ -296,6 +296,19 @@ static std::string run(const hx::Sexp &e)
         }
         else if (h == "clearall") annotator->clearAllIds();
         else if (h == "item") { long k = slotOfItem(annotator->item(op[1].text())); res = k >= 0 ? "i" + std::to_string(k) : (k == -1 ? "none" : "unknown-object"); }
+        else if (h == "itemi" || h == "compi") {
+            // indexed lookups item(id, index) / component(id, index): some = an item that carries the id, wrong = another item,
+            // none1 / none0 = nothing, with / without an issue that explains it
+            std::string id = op[1].text();
+            size_t idx = size_t(atol(op[2].atom.c_str()));
+            if (h == "itemi") {
+                long k = slotOfItem(annotator->item(id, idx));
+                res = k >= 0 ? (getId(gSlots[size_t(k)]) == id ? "some" : "wrong") : (k == -1 ? (annotator->issueCount() > 0 ? "none1" : "none0") : "unknown-object");
+            } else {
+                auto c = annotator->component(id, idx);
+                res = c != nullptr ? (c->id() == id ? "some" : "wrong") : (annotator->issueCount() > 0 ? "none1" : "none0");
+            }
+        }
         else if (h == "count") res = "n" + std::to_string(annotator->itemCount(op[1].text()));
         else if (h == "printauto") {
             // Printer::printModel(model, true): (p <model unchanged> <elements left without id> <elements without id in the plain print> <generated ids, sorted>)
